@@ -91,22 +91,28 @@ def l1(prog, ctx):
             ctx.fail("L1", "layer %d is the %s directory" % (k, layer), bad[0].where, "%s: %s" % (render(bad[0])[:70], bad[1]), key="layer-dir:%d" % k)
         else:
             ctx.ok("L1", "layer %d is the %s directory" % (k, layer), calls[0][0].where, "all %d ways of composing %s use it" % (len(calls), buf))
-    # root prefix and project in all three or none
-    groups = {}
+    # root prefix and project in all three or none: each buffer is composed by the same set of (condition, format) alternatives
+    per_buf = {}
+    first_call = None
     for buf, calls in formats.items():
         if buf not in bufs.values():
             continue
         for c, fmt, args in calls:
-            b = cfg.block_of(c)
-            groups.setdefault(b, []).append((buf, fmt, [render(x) for x in args]))
-    for b, items in groups.items():
-        fmts = set(i[1] for i in items)
-        uses_root = set("(*key_file)->root_prefix" in i[2] for i in items)
-        uses_proj = set("project" in i[2] for i in items)
-        if len(items) == 3 and len(fmts) == 1 and len(uses_root) == 1 and len(uses_proj) == 1:
-            ctx.ok("L1", "the three layers are composed alike (%s)" % list(fmts)[0], cfg.blocks[b].elems[0].where, "root prefix / project in all three or in none")
-        else:
-            ctx.fail("L1", "the three layers are composed alike", cfg.blocks[b].elems[0].where, "formats %s" % sorted(fmts), key="layer-compose")
+            first_call = first_call or c
+            names = [render(x) for x in args]
+            req = cfg.required_literals(cfg.block_of(c), expand_locals=False)
+            conds = frozenset((l.atom, l.pol) for l in req if l.atom in ("(*key_file)->root_prefix", "project"))
+            per_buf.setdefault(buf, set()).add((conds, fmt, "(*key_file)->root_prefix" in names, "project" in names))
+    sigs = list(per_buf.values())
+    if len(sigs) == 3 and sigs[0] == sigs[1] == sigs[2]:
+        ctx.ok("L1", "the three layers are composed alike", first_call.where,
+               "%d alternatives (root prefix x project), the same formats under the same conditions for all three buffers" % len(sigs[0]))
+    else:
+        diff = set()
+        for a in sigs:
+            for b2 in sigs:
+                diff |= set(x[1] for x in a ^ b2)
+        ctx.fail("L1", "the three layers are composed alike", (first_call or f).where, "formats %s" % sorted(diff), key="layer-compose")
 
 
 def l2_l5(prog, ctx):
@@ -212,23 +218,31 @@ def l2_l5(prog, ctx):
         ctx.fail("L5", "drop-ins are read whether or not a main file exists", dep[0].node.where, "the drop-in scan is behind %s" % dep[0], key="dropin-conditional")
     else:
         ctx.ok("L5", "drop-ins are read whether or not a main file exists", tr[0].where, "no condition on the number of files found dominates the scan")
-    # L12
-    nof = query.returns_of_constant(f, "ECONF_NOFILE")
+    # L12: where the final test finds the history empty, the function returns ECONF_NOFILE (whatever the exit is spelled like);
+    # and success needs at least one file
+    def size_lit(lit, positive):
+        return lit is not None and "size" in lit.atom and lit.pol == positive and ((lit.kind == "lt" and lit.lhs.const_value() == 0) or lit.kind == "truth")
+    nofile = prog.enumerators.get("ECONF_NOFILE")
+    empties = [(b, i, s2) for (b, i, s2) in cfg.edges() if size_lit(cfg.edge_lit(b, i), False)]
     ok12 = False
-    for r in nof:
-        ok, cut = cfg.all_paths_cut(cfg.block_of(r), lambda lit, b, i: lit is not None and "size" in lit.atom and not lit.pol and (
-            (lit.kind == "lt" and lit.lhs.const_value() == 0) or lit.kind == "truth"))
-        if ok and cut:
+    for (b, i, s2) in empties:
+        vals = cfg.returned_values_from(s2)
+        if vals == {nofile}:
             ok12 = True
-            ctx.ok("L12", "no file at all gives ECONF_NOFILE", r.where, "return behind *size <= 0")
+            ctx.ok("L12", "no file at all gives ECONF_NOFILE", cfg.blocks[b].cond.where, "every consistent path from `*size <= 0` ends in a return of ECONF_NOFILE")
+        else:
+            ctx.fail("L12", "no file at all gives ECONF_NOFILE", cfg.blocks[b].cond.where,
+                     "with an empty history the function can return %s" % sorted(str(v) for v in vals), key="empty-result")
+            ok12 = True
     if not ok12:
         ctx.fail("L12", "no file at all gives ECONF_NOFILE", f.where, "an empty history is handed back with success", key="empty-result")
-    succ = [r for r in f.returns() if query.returned_constant(r) in ("ECONF_SUCCESS", 0)]
-    for r in succ:
-        ok, cut = cfg.all_paths_cut(cfg.block_of(r), lambda lit, b, i: lit is not None and "size" in lit.atom and lit.pol and (
-            (lit.kind == "lt" and lit.lhs.const_value() == 0) or lit.kind == "truth"))
-        if not (ok and cut):
-            ctx.fail("L12", "success only with at least one file", r.where, "ECONF_SUCCESS reachable with an empty history", key="empty-success")
+    wp12 = cfg.success_path_avoiding(lambda lit, b, i: size_lit(lit, True))
+    if wp12 is not None:
+        last = wp12[-1][0] if wp12 else cfg.entry
+        ctx.fail("L12", "success only with at least one file", (cfg.blocks[last].elems[-1] if cfg.blocks[last].elems else f).where,
+                 "ECONF_SUCCESS reachable with an empty history", key="empty-success")
+    else:
+        ctx.ok("L12", "success only with at least one file", f.where, "every consistent path to a successful return carries *size > 0")
     # L14 suffix
     sfx = [(lhs, rhs, st) for lhs, rhs, st in f.assignments() if (lhs["name"] if isinstance(lhs, dict) else render(lhs)) == "suffix"]
     vals = sorted(render(r) for _, r, _ in sfx)
@@ -395,33 +409,58 @@ def l6_l9(prog, ctx):
         ctx.fail("L9", "an accepted drop-in is appended to the history", (ap[0] if ap else f).where, "store %s" % [render(x) for x in ap], key="append")
 
 
+def _history_walk(m):
+    """the loop that walks the NULL-terminated history: (loop, K, current-element text, cursor variable, kind)"""
+    import re as _re
+    K = m.params[0]["name"]
+    out = []
+    for lp in m.walk():
+        if lp.k not in ("WhileStmt", "ForStmt") or lp.child("cond") is None:
+            continue
+        if any(y.k in ("WhileStmt", "ForStmt", "DoStmt") for y in lp.ancestors()):
+            continue
+        t = render(lp.child("cond"))
+        t = _re.sub(r" != NULL$", "", t)
+        if t == "*" + K:
+            out.append((lp, K, "*" + K, K, "cursor"))
+        else:
+            mm = _re.fullmatch(_re.escape(K) + r"\[([\w$.]+)\]", t)
+            if mm:
+                out.append((lp, K, t, mm.group(1), "index"))
+    return out
+
+
 def l10_l11(prog, ctx):
+    import re as _re
     m = prog.fn("merge_econf_files")
     ctx.touch(m)
     cfg = m.cfg
     mc = m.calls("econf_mergeFiles")
     if len(mc) != 1:
         raise Inconclusive("merge_econf_files: econf_mergeFiles call not found")
+    walks = _history_walk(m)
+    if len(walks) != 1:
+        raise Inconclusive("merge_econf_files: loops not recognised")
+    outer0, K, CUR, CV, wkind = walks[0]
+    outer = [outer0]
     a = [render(x) for x in mc[0].call_args()]
-    if a == ["merged_files", "*merged_files", "*key_files"]:
+    if a == ["merged_files", "*merged_files", CUR]:
         ctx.ok("L11", "later files override the accumulated result", mc[0].where, "econf_mergeFiles(result, base = accumulated result, override = current file)")
-    elif a[1:] == ["*key_files", "*merged_files"]:
+    elif a[1:] == [CUR, "*merged_files"]:
         ctx.fail("L11", "later files override the accumulated result", mc[0].where, "base and override are swapped: earlier (lower-priority) files win", key="merge-direction")
     else:
         ctx.fail("L11", "later files override the accumulated result", mc[0].where, "arguments %s" % a, key="merge-args")
-    outer = [x for x in m.walk() if x.k == "WhileStmt" and not any(y.k == "WhileStmt" for y in x.ancestors())]
-    inner = [x for x in m.walk() if x.k == "WhileStmt" and any(y.k == "WhileStmt" for y in x.ancestors())]
-    if len(outer) != 1 or len(inner) != 1:
-        raise Inconclusive("merge_econf_files: loops not recognised")
-    incs = [x for x in outer[0].child("body").walk() if x.k == "UnaryOperator" and x.j.get("op") in ("++", "--") and render(x.children[0]) == "key_files"
-            and not x.within(inner[0])]
+    nested = [x for x in outer0.walk() if x is not outer0 and x.k in ("WhileStmt", "ForStmt", "DoStmt")]
+    scope = [outer0.child("body")] + ([outer0.child("inc")] if outer0.k == "ForStmt" and outer0.child("inc") is not None else [])
+    incs = [x for part in scope if part is not None for x in part.walk() if x.k == "UnaryOperator" and x.j.get("op") in ("++", "--") and render(x.children[0]) == CV
+            and not any(x.within(n2) for n2 in nested)]
     if len(incs) == 1 and incs[0].j["op"] == "++":
-        ctx.ok("L11", "the history is merged front to back", incs[0].where, "key_files++ once per element")
+        ctx.ok("L11", "the history is merged front to back", incs[0].where, "%s++ once per element" % CV)
     else:
         ctx.fail("L11", "the history is merged front to back", outer[0].where, "cursor updates: %s" % [render(x) for x in incs], key="merge-walk")
     # L10: mask predicate = scan of LATER elements for an equal basename; equality skips the merge.
-    # Names are discovered: the strcmp of two locals defined as basename(X->path); one X is the current element
-    # (*key_files), the other is *Q for a cursor Q that starts at key_files + 1.
+    # Names are discovered: the strcmp of two locals defined as basename(X->path); one X is the current element,
+    # the other an element behind it: *Q with Q starting at cursor+1, or Q[n] with Q = &K[i+1] / K[j] with j from i+1.
     def name_of(l):
         return l["name"] if isinstance(l, dict) else render(l)
     defs = {}
@@ -437,52 +476,84 @@ def l10_l11(prog, ctx):
         if r.k == "CallExpr" and r.j.get("callee") in BN:
             return render(r.call_args()[0])
         return None
-    cmpc, Q, srcs = [], None, {}
+    cur_path = ("(%s)->path" % CUR) if CUR.startswith("*") else ("%s->path" % CUR)
+    cmpc, later, srcs = [], None, {}
     for c in m.calls("strcmp"):
         bs = [basename_of(x) for x in c.call_args()]
         if None in bs:
             continue
         srcs = dict(zip([render(x) for x in c.call_args()], bs))
-        if "(*key_files)->path" in bs:
-            other = bs[1 - bs.index("(*key_files)->path")]
-            import re as _re
+        if cur_path in bs:
+            other = bs[1 - bs.index(cur_path)]
+            later_text = other
             mm = _re.fullmatch(r"\(\*([A-Za-z_$.0-9]+)\)->path", other)
-            if mm and mm.group(1) != "key_files":
+            mi = _re.fullmatch(r"([A-Za-z_$.0-9]+)\[([A-Za-z_$.0-9]+)\]->path", other)
+            mx = _re.fullmatch(r"\((&?[^()]+(?:\[[^\]]+\])?)\)\[([A-Za-z_$.0-9]+)\]->path", other)     # (&K[i + 1])[n]->path : the start written in place
+            if mx and not mi:
                 cmpc.append(c)
-                Q = mm.group(1)
-    src_ok = bool(cmpc)
-    start = [render(r) for r, st in defs.get(Q, [])] if Q else []
-    later = start == ["key_files + 1"]
-    adv = [x for x in m.walk() if Q and x.k == "UnaryOperator" and x.j.get("op") == "++" and render(x.children[0]) == Q]
-    scan = [w for w in m.walk() if Q and w.k in ("WhileStmt", "ForStmt") and w.child("cond") is not None and render(w.child("cond")) in ("*" + Q, "*%s != NULL" % Q)]
+                later = ("index", mx.group(1), mx.group(2))
+                defs.setdefault(mx.group(1), [])
+                inplace_start = mx.group(1)
+            elif mm and mm.group(1) != K:
+                cmpc.append(c)
+                later = ("deref", mm.group(1), None)
+            elif mi:
+                cmpc.append(c)
+                later = ("index", mi.group(1), mi.group(2))
     mb = cfg.block_of(mc[0])
     ohb = cfg.loop_header(outer[0])
-    eq_breaks = False
-    if cmpc and len(scan) == 1:
-        ihb = cfg.loop_header(scan[0])
-        for (b, i, s2) in cfg.edges():
-            lit = cfg.edge_lit(b, i)
-            if lit is not None and lit.node is cmpc[0] and not lit.pol:
-                # after an equal name: neither the scan goes on nor is the merge (consistently) reachable in this round
-                reg = cfg.reachable(s2, avoid_blocks=[ihb, ohb])
-                back = any(ss == ihb for (bb, ii, ss) in cfg.edges() if bb in reg)
-                eq_breaks = not back
-    okm, cutm = cfg.all_paths_cut(mb, lambda lit, b, i: lit is not None and lit.kind == "truth" and lit.atom == "*%s" % Q and not lit.pol)
-    if later and len(adv) == 1 and cmpc and src_ok and eq_breaks and okm and cutm:
-        ctx.ok("L10", "a drop-in is skipped when a later file has the same name", cmpc[0].where,
-               "scan of key_files+1.. comparing basename(path); equality ends the scan before its end, and the merge runs only when the scan reached the end")
-    else:
-        why = []
-        if cmpc and not later:
-            why.append("the scan starts at %s, not at the next element" % start)
-        if not cmpc:
-            why.append("no equality test of basename((*key_files)->path) with the basename of a later element's path (strcmp calls compare %s)" % (srcs or "nothing of that kind"))
-        if cmpc and not eq_breaks:
-            why.append("an equal name does not end the scan")
-        if cmpc and len(adv) != 1:
+    why = []
+    end_lit = None
+    scan = []
+    if cmpc:
+        kind2, Q, N = later
+        start = [render(r) for r, st in defs.get(Q, [])]
+        if kind2 == "deref":
+            want_start = ["%s + 1" % K] if wkind == "cursor" else ["&%s[%s + 1]" % (K, CV), "(%s + %s) + 1" % (K, CV), "%s + (%s + 1)" % (K, CV)]
+            ok_start = len(start) == 1 and start[0] in want_start
+            adv = [x for x in m.walk() if x.k == "UnaryOperator" and x.j.get("op") == "++" and render(x.children[0]) == Q]
+            end_atom = "*" + Q
+        else:
+            # Q[N]: either Q is a pointer to the element behind the current one and N counts from 0, or Q is the list itself and N from cursor+1
+            nstart = [render(r) for r, st in defs.get(N, [])]
+            if Q == K:
+                ok_start = wkind == "index" and nstart == ["%s + 1" % CV]
+                start = nstart
+            else:
+                qs = ["%s + 1" % K] if wkind == "cursor" else ["&%s[%s + 1]" % (K, CV), "(%s + %s) + 1" % (K, CV), "%s + (%s + 1)" % (K, CV)]
+                if not start and Q in qs:
+                    start = [Q]             # the start expression stands where the pointer would
+                ok_start = len(start) == 1 and start[0] in qs and nstart == ["0"]
+            adv = [x for x in m.walk() if x.k == "UnaryOperator" and x.j.get("op") == "++" and render(x.children[0]) == N]
+            end_atom = later_text[:-len("->path")]
+        scan = [w for w in m.walk() if w.k in ("WhileStmt", "ForStmt") and w.child("cond") is not None
+                and _re.sub(r" != NULL$", "", render(w.child("cond"))) == end_atom]
+        if not ok_start:
+            why.append("the scan starts at %s, not at the element behind the current one" % start)
+        if len(adv) != 1:
             why.append("the scan cursor is advanced %d times" % len(adv))
+        eq_breaks = False
+        if len(scan) == 1:
+            ihb = cfg.loop_header(scan[0])
+            for (b, i, s2) in cfg.edges():
+                lit = cfg.edge_lit(b, i)
+                if lit is not None and lit.node is cmpc[0] and not lit.pol:
+                    # after an equal name the scan does not go on
+                    reg = cfg.reachable(s2, avoid_blocks=[ihb, ohb])
+                    back = any(ss == ihb for (bb, ii, ss) in cfg.edges() if bb in reg)
+                    eq_breaks = not back
+        if not eq_breaks:
+            why.append("an equal name does not end the scan")
+        okm, cutm = cfg.all_paths_cut(mb, lambda lit, b, i: lit is not None and lit.kind == "truth" and lit.atom == end_atom and not lit.pol)
         if not (okm and cutm):
             why.append("the merge is not conditional on 'no later file of that name'")
+    else:
+        why.append("no equality test of basename(%s) with the basename of a later element's path (strcmp calls compare %s)" % (cur_path, srcs or "nothing of that kind"))
+        okm, cutm = cfg.all_paths_cut(mb, lambda lit, b, i: False)
+    if not why:
+        ctx.ok("L10", "a drop-in is skipped when a later file has the same name", cmpc[0].where,
+               "scan of the elements behind the current one comparing basename(path); equality ends the scan before its end, and the merge runs only when the scan reached the end")
+    else:
         ctx.fail("L10", "a drop-in is skipped when a later file has the same name", (cmpc[0] if cmpc else m).where, "; ".join(why), key="mask-predicate")
     # every use of a history element as input of the result must pass the mask predicate
     seed = [st for lhs, rhs, st, kind in query.stores(m) if render(lhs) == "*merged_files" and rhs is not None and "key_files" in render(rhs)]
